@@ -445,6 +445,9 @@ class CallsMixin:
                 if md is not None:
                     mi, node, owner = md
                     self.run_function(node, mi, f"{owner.__module__}:{owner.__qualname__}.__init__", [obj] + list(args), kwargs)
+                if fc is not None and fc.ghost_post:
+                    # an inlined constructor still performs the ghost updates of its contract
+                    self.run_ghost(fc.ghost_post, {"self": obj}, fr)
             return obj
         if (cls.__module__ or "").split(".")[0] in ("h2", "h11", "wsproto"):
             # library value class (event): the call must bind to the installed signature
